@@ -226,6 +226,9 @@ func genPreemptBiased(rng *Rng, ntypes int) PreemptCase {
 			g := map[string]int64{}
 			for k, v := range ask.Res {
 				g[k] = v + int64(rng.Intn(10))
+				if rng.Chance(60) {
+					g[k] += int64(5 + rng.Intn(15))
+				}
 			}
 			if rng.Chance(85) {
 				q.Guaranteed = g
@@ -261,6 +264,34 @@ func genPreemptBiased(rng *Rng, ntypes int) PreemptCase {
 		}
 	}
 	spec.Allocs = allocs
+	// most nodes are nearly full: capacity = what is placed on them plus a small slack
+	for i := range nodes {
+		if rng.Chance(20) {
+			continue
+		}
+		tot := map[string]int64{}
+		for _, a := range allocs {
+			if a.Node == i {
+				for k, v := range a.Res {
+					tot[k] += v
+				}
+			}
+		}
+		for t := 0; t < ntypes; t++ {
+			k := preemptTypes[t]
+			tot[k] += []int64{0, 0, 0, 1, 2, 4, 9}[rng.Intn(7)]
+			if tot[k] == 0 {
+				if rng.Chance(60) {
+					tot[k] = int64(4 + rng.Intn(10))
+				} else {
+					delete(tot, k)
+				}
+			}
+		}
+		if len(tot) > 0 {
+			nodes[i].Total = tot
+		}
+	}
 	if rng.Chance(50) {
 		total := map[string]int64{}
 		for _, nd := range nodes {
